@@ -351,13 +351,17 @@ func c20World(t *testing.T, r *simcore.Run) any {
 		// issued cookies not yet used, as the statement defines the pool
 		var pool [][]byte
 		var cur *keScript
+		// the configured server address: one object for all attempts, as the production reference
+		// clock has it, with a non-standard port - where the requests go is up to the key exchange
+		// (named server and port, by default the key-exchange host and the standard NTP port)
+		remote := udpAddr(ipSrvIP, 4999)
 		for i := 0; i < nattempts && r.Violation() == nil; i++ {
 			if r.Sleep(fmt.Sprintf("gap:%d", i), w.cli.Node, time.Duration(tp.Range(int64(time.Millisecond), int64(2*time.Second), "gap"))).Killed {
 				return
 			}
 			dials0, reqs0 := len(conns), len(reqs)
 			poolBefore := c.Auth.NTSKEFetcher.VerifPoolLen()
-			_, _, merr := w.measureIP(c, 800*time.Millisecond)
+			_, _, merr := w.measureIPTo(c, remote, 800*time.Millisecond)
 			dials, nreq := len(conns)-dials0, len(reqs)-reqs0
 			data := c.Auth.NTSKEFetcher.VerifData()
 			line := fmt.Sprintf("attempt %d: pool %d, dials %d, NTS requests %d, err=%v", i, poolBefore, dials, nreq, merr != nil)
